@@ -736,15 +736,15 @@ func TestC15(t *testing.T) {
 				var cerr error
 				perr := hx.Safe(func() error { n, placed, cerr = checkRecipe(p.Recipe, dec, seed); return nil })
 				r.Eval()
-				mu.Lock()
-				defer mu.Unlock()
 				dec.Draw = nil
 				c := progCase{Name: f, Src: recipe.Text(src), Dec: dec, Seed: seed}
-				if perr != nil || cerr != nil {
+				if (perr != nil || cerr != nil) && r.Violations() < 2 {
 					c.Src = recipe.Text(shrink.Source(src, func(b []byte) bool {
 						return hx.Safe(func() error { return checkProg(progCase{Name: c.Name, Src: recipe.Text(b), Dec: c.Dec, Seed: c.Seed}) }) != nil
 					}, 15*time.Second))
 				}
+				mu.Lock()
+				defer mu.Unlock()
 				switch {
 				case perr != nil:
 					r.Violate(ckP.Name, c, perr)
